@@ -26,11 +26,12 @@ Decides (static, on type-checked MIR of every autocomplete configuration):
  T11 operands      zsh: every placeholder of a `compadd` / `_files` line is the argument of an option letter or stands after `--` (a quoted word that
                        starts with a dash is otherwise read as an option).
  T12 untruncated   no format placeholder in the completion modules carries a precision (candidates and descriptions are never cut).
+ T13 descr         zsh: every `compadd .. -d descr` line of the candidate loop follows the `descr=(..)` assignment made for the same candidate.
 Does not decide: that sourcing the text in a real shell has no other effect."""
 import re
 from core import *
 from dataflow import *
-from cfgq import fn_refs, switch_on_call, switches, Switch
+from cfgq import fn_refs, switch_on_call, switches, Switch, reachable_edges
 
 LEVEL = 'other'
 EXPLANATION = __doc__
@@ -39,7 +40,7 @@ ASSUMPTIONS = [
     'ShellComp::Raw strings and &\'static constants are supplied by the developer, not by the user at completion time',
     'shell semantics: text inside single quotes with \' -> \'\\\'\' is data for bash and zsh',
 ]
-FLOORS = {'T1.typed-quoting': 19, 'T2.newline': 23, 'T3.accumulator': 6, 'T4.coverage': 12, 'T5.escaper': 4, 'T6.dispatch': 5, 'T7.stubs': 8, 'T8.line-protocol': 2, 'T9.once': 4, 'T10.completers': 4, 'T11.operands': 5, 'T12.untruncated': 1}
+FLOORS = {'T1.typed-quoting': 19, 'T2.newline': 23, 'T3.accumulator': 6, 'T4.coverage': 12, 'T5.escaper': 4, 'T6.dispatch': 5, 'T7.stubs': 8, 'T8.line-protocol': 2, 'T9.once': 4, 'T10.completers': 4, 'T11.operands': 5, 'T12.untruncated': 1, 'T13.descr': 1}
 
 RENDERERS = ['render_zsh', 'render_bash', 'render_fish', 'render_simple']
 INT_TYPES = {'usize', 'u8', 'u16', 'u32', 'u64', 'u128', 'isize', 'i8', 'i16', 'i32', 'i64', 'i128'}
@@ -82,6 +83,7 @@ def run(ctx):
         ctx.guard(t5_offsets, ctx, cfg, fs)
         ctx.guard(t11_operands, ctx, cfg, fs, bodies)
         ctx.guard(t12_untruncated, ctx, cfg, fs)
+        ctx.guard(t13_descr_fresh, ctx, cfg, fs, bodies)
         import c14, c08
         ctx.guard(c08.keep_only, ctx, lambda: c14.no_late_none(ctx, cfg, fs), lambda o: True, 'T6.dispatch')
 
@@ -107,6 +109,29 @@ def t11_operands(ctx, cfg, fs, bodies):
                 ctx.ob('T11.operands', '%s:%s' % (body.path, text.strip()[:50]), not bad,
                        '%s: template %r: %s' % (body.path, text, ('%s would be read as an option when the text starts with a dash' % ', '.join(bad)) if bad else 'every placeholder is an option argument or follows `--`'),
                        where=s.where(), cfg=cfg)
+
+def t13_descr_fresh(ctx, cfg, fs, bodies):
+    """zsh: `descr` is a shell variable that outlives the directive that set it.  A `compadd .. -d descr ..` line shows whatever the array
+    holds at that moment, so inside the loop over the candidates every way from fetching the next candidate to such a line passes the
+    line that assigns `descr=(..)` for THIS candidate (otherwise the previous candidate's text is displayed a second time)."""
+    b = bodies['render_zsh']
+    sites = fmt_sites(b)
+    uses = [s_ for s_ in sites if re.search(r'-d descr\b', s_.text())]
+    sets = [s_ for s_ in sites if re.match(r'descr=\(', s_.text())]
+    nxt = [c for c in b.calls() if c.is_(r'Iterator>?::next$') and 'ShowComp' in c.full]
+    if not uses:
+        return
+    where_of = lambda s_: (s_.consumer.bb if s_.consumer is not None else s_.bb)
+    bad = []
+    for u in uses:
+        heads = [c for c in nxt if b.reaches(c.bb, [where_of(u)])]
+        if not heads:
+            bad.append('%r is not inside the loop over the candidates' % u.text().strip()); continue
+        for h in heads:
+            if h.target is not None and where_of(u) in reachable_edges(b, h.target, avoid=[where_of(x) for x in sets] + [h.bb]):
+                bad.append('%r can be reached from the fetch of a candidate without assigning descr for it' % u.text().strip()[:40])
+    ctx.ob('T13.descr', 'render_zsh:descr-assigned-for-every-candidate-shown', bool(sets) and not bad,
+           'render_zsh: %d line(s) display `descr`, %d line(s) assign it: %s' % (len(uses), len(sets), sorted(set(bad)) or 'every display follows the assignment made for the same candidate'), where=b.where(), cfg=cfg)
 
 def t12_untruncated(ctx, cfg, fs):
     """a candidate (and its description) reaches the shell whole: no format placeholder in the completion modules carries a precision
